@@ -32,6 +32,31 @@ def negate(e: ast.AST) -> ast.AST:
     return ast.copy_location(ast.UnaryOp(ast.Not(), e), e)
 
 
+def expand_quantifiers(e: ast.AST) -> ast.AST:
+    """`any(P(x) for x in (a, b))` -> `P(a) or P(b)`, `all(...)` -> and (generator / list comprehension over a literal
+    tuple, list or set with one plain loop variable)"""
+
+    class T(ast.NodeTransformer):
+        def visit_Call(self, n):
+            self.generic_visit(n)
+            if isinstance(n.func, ast.Name) and n.func.id in ("any", "all") and len(n.args) == 1 and not n.keywords \
+                    and isinstance(n.args[0], (ast.GeneratorExp, ast.ListComp)) and len(n.args[0].generators) == 1:
+                g = n.args[0].generators[0]
+                if isinstance(g.target, ast.Name) and not g.ifs and isinstance(g.iter, (ast.Tuple, ast.List, ast.Set)) and 1 <= len(g.iter.elts) <= 6:
+                    vals = []
+                    for el in g.iter.elts:
+                        class S(ast.NodeTransformer):
+                            def visit_Name(self, m):
+                                return copy.deepcopy(el) if m.id == g.target.id and isinstance(m.ctx, ast.Load) else m
+                        vals.append(S().visit(copy.deepcopy(n.args[0].elt)))
+                    if len(vals) == 1:
+                        return vals[0]
+                    return ast.copy_location(ast.BoolOp(ast.Or() if n.func.id == "any" else ast.And(), vals), n)
+            return n
+
+    return T().visit(copy.deepcopy(e))
+
+
 def nnf(e: ast.AST) -> ast.AST:
     if isinstance(e, ast.UnaryOp) and isinstance(e.op, ast.Not):
         return negate(e.operand)
@@ -41,7 +66,7 @@ def nnf(e: ast.AST) -> ast.AST:
 
 
 def conjuncts(e: ast.AST) -> list[ast.AST]:
-    e = nnf(e)
+    e = nnf(expand_quantifiers(e))
     if isinstance(e, ast.BoolOp) and isinstance(e.op, ast.And):
         out = []
         for v in e.values:
@@ -54,6 +79,7 @@ class Env:
     """Single-assignment view of a function's locals."""
 
     def __init__(self, fn: ast.AST, params=()):
+        self.fn = fn
         self.asg = assignments(fn)
         self.params = set(params)
         a = getattr(fn, "args", None)
@@ -73,23 +99,30 @@ class Env:
             return vs[0]
         return None
 
-    def expand(self, e: ast.AST, keep=(), depth: int = 4) -> ast.AST:
-        """`e` with every single-assignment local (not in `keep`) replaced by its definition; walrus targets dissolve."""
+    def expand(self, e: ast.AST, keep=(), depth: int = 4, at: ast.AST | None = None) -> ast.AST:
+        """`e` with every single-assignment local (not in `keep`) replaced by its definition; walrus targets dissolve.
+        With `at` (the statement / call where `e` is evaluated) a local that is bound several times is replaced by the
+        plain assignment that dominates `at` syntactically (`b = b.evolve(..)` ... `f(b)`), once."""
         keep = set(keep)
         env = self
 
         class T(ast.NodeTransformer):
-            def __init__(self, d):
+            def __init__(self, d, frozen=frozenset()):
                 self.d = d
+                self.frozen = frozen
 
             def visit_NamedExpr(self, n):
                 return self.visit(n.value)
 
             def visit_Name(self, n):
-                if isinstance(n.ctx, ast.Load) and n.id not in keep and self.d > 0:
+                if isinstance(n.ctx, ast.Load) and n.id not in keep and n.id not in self.frozen and self.d > 0:
                     v = env.single(n.id)
                     if v is not None and not any(isinstance(x, ast.Name) and x.id == n.id for x in ast.walk(v)):
-                        return T(self.d - 1).visit(copy.deepcopy(v))
+                        return T(self.d - 1, self.frozen).visit(copy.deepcopy(v))
+                    if v is None and at is not None and n.id not in env.params:
+                        dv = dominating_def(env.fn, at, n.id)
+                        if dv is not None:
+                            return T(self.d - 1, self.frozen | {n.id}).visit(copy.deepcopy(dv))
                 return n
 
         return T(depth).visit(copy.deepcopy(e))
